@@ -124,7 +124,7 @@ def bool_(x):
 def int_(x):
     try:
         return int(x)
-    except (ValueError, TypeError):
+    except (ValueError, TypeError, OverflowError):
         return None
 
 
@@ -168,7 +168,7 @@ def date_from_ymd(year, month, day):
     """Construct a date with year, month, day arguments."""
     try:
         return datetime.date(year, month, day)
-    except ValueError:
+    except (ValueError, OverflowError):
         return None
 
 
